@@ -161,7 +161,8 @@ def run(rep: common.Report, tier: str, seed: int, replay=None) -> int:
     n = 10 if tier == "quick" else 60
     for k in range(n):
         specs.append(dict(shape=shapes[k % 3], holes=k % 3, terminals=[0, 2, 3, 4][k % 4], smooth=[0, 0, 2][k % 3],
-                          max_edge_length=[0.6, 0.9, 1.4][(k // 3) % 3], xi=[0.5, 0.25, 1.0][(k // 2) % 3]))
+                          max_edge_length=[0.6, 0.9, 1.4][(k // 3) % 3], xi=[0.5, 0.25, 1.0][(k // 2) % 3],
+                          scale=[1.0, 1.0, 1e-3, 1.0, 400.0][k % 5]))      # the same shapes stated at other length scales
     for k, hk in enumerate(["L", "thinL", "C"] * (1 if tier == "quick" else 4)):
         specs.append(dict(shape="box", holes=1 + k % 2, terminals=[2, 0][k % 2], smooth=0, max_edge_length=[0.6, 0.9][k % 2],
                           xi=[0.5, 1.0][k % 2], hole_kind=hk))
@@ -173,7 +174,8 @@ def run(rep: common.Report, tier: str, seed: int, replay=None) -> int:
         try:
             dev = meshes.make_device(rng, holes=spec["holes"], terminals=spec["terminals"], smooth=spec["smooth"],
                                      max_edge_length=spec["max_edge_length"], shape=spec["shape"], xi=spec["xi"],
-                                     hole_kind=spec.get("hole_kind", "convex"), pad=spec.get("pad", False))
+                                     hole_kind=spec.get("hole_kind", "convex"), pad=spec.get("pad", False),
+                                     **({"scale": spec["scale"]} if spec.get("scale", 1.0) != 1.0 else {}))
         except RuntimeError:
             # twelve attempts with different outline resolutions all failed (mesh error, or terminals touching no boundary):
             # build once more without terminals and check what the mesher produced
